@@ -269,3 +269,6 @@ MANIFEST = dict(
          "program text. A failing output handler during replay drops the entry (stated limit).",
     technique="Coq proof (structural induction with per-alias counter algebra; string injectivity of the key format) + "
               "differential correspondence by vm_compute on edited program pairs")
+
+
+__import__("props.alias_probes", fromlist=["install"]).install(globals(), "C03")     # probe stream "alias" (implementation only)
